@@ -27,6 +27,7 @@ EXPLANATION = (
     "(EDGE) edge paths are forwarded unfiltered and converted carrier-set by carrier-set; "
     "(COUNT) converters are told the number of inputs wherever the path derives from a "
     "caller's parameter. "
+    'Round 7: (INFER) the input count inferred by the converters, evaluated on sample paths, equals sum(len(step)) - steps + 1; (KEYS, shared with C02) no conversion memoised in a per-node entry. '
 )
 ASSUMPTIONS = ("list.pop(i) shifts later positions down by one; bisect arithmetic is not decided",)
 
